@@ -835,9 +835,23 @@ Qed.
 (* ------------------------------------------------------------------ *)
 (** * Totality: no panic site of the model is reachable *)
 
-(** [post r P]: [r] is not a panic, and if it is a value, the value satisfies [P]. *)
+(** [post r P]: [r] is neither a panic nor an exit, and if it is a value, the value satisfies [P].
+    [postx] allows the exit. *)
 Definition post {E A} (r : res E A) (P : A -> Prop) : Prop :=
+  match r with Ok a => P a | Err _ => True | ExitP _ => False | Panic _ => False end.
+Definition postx {E A} (r : res E A) (P : A -> Prop) : Prop :=
   match r with Ok a => P a | Err _ => True | ExitP _ => True | Panic _ => False end.
+
+Lemma post_postx : forall {E A} (r : res E A) (P : A -> Prop), post r P -> postx r P.
+Proof. intros E A [a|e|w|c] P H; simpl in *; auto. Qed.
+
+Lemma postx_bind : forall {E A B} (r : res E A) (f : A -> res E B) (P : A -> Prop) (Q : B -> Prop),
+  postx r P -> (forall a, P a -> postx (f a) Q) -> postx (bind r f) Q.
+Proof. intros E A B [a|e|w|c] f P Q H HF; simpl in *; auto. Qed.
+
+Lemma postx_map_err : forall {E F A} (g : E -> F) (r : res E A) (P : A -> Prop),
+  postx r P -> postx (map_err g r) P.
+Proof. intros E F A g [a|e|w|c] P H; simpl in *; auto. Qed.
 
 Lemma post_bind : forall {E A B} (r : res E A) (f : A -> res E B) (P : A -> Prop) (Q : B -> Prop),
   post r P -> (forall a, P a -> post (f a) Q) -> post (bind r f) Q.
@@ -1198,7 +1212,7 @@ Proof.
 Qed.
 
 Lemma get_command_name_post : forall c line, nodelim (c :: line) -> c <> 32 ->
-  post (get_command_name (arguments_from (c :: line))) name_post.
+  postx (get_command_name (arguments_from (c :: line))) name_post.
 Proof.
   intros c line Hn Hc. unfold get_command_name. simpl cursor. change (0 =? 0) with true. simpl negb. cbv iota.
   set (a := arguments_from (c :: line)).
@@ -1206,19 +1220,19 @@ Proof.
     as (t & a1 & -> & Hw1 & Hc1 & _ & Hsome & _).
   simpl bind. cbv iota beta. destruct t as [cn|]; [|exfalso; exact (Hsome c line eq_refl Hc eq_refl)].
   assert (H10 : arg_count a1 = 0) by (rewrite Hc1; reflexivity).
-  apply (post_bind _ _ _ _ (name_matches_with_subcommand_post a1 cn _ _ _ _ Hw1 H10)).
+  apply (postx_bind _ _ _ _ (post_postx _ _ (name_matches_with_subcommand_post a1 cn _ _ _ _ Hw1 H10))).
   intros [s a2] [Hw2 Hc2]. simpl in *. destruct s as [x|]; [split; assumption|].
-  apply (post_bind _ _ _ _ (name_matches_with_subcommand_post a2 cn _ _ _ _ Hw2 Hc2)).
+  apply (postx_bind _ _ _ _ (post_postx _ _ (name_matches_with_subcommand_post a2 cn _ _ _ _ Hw2 Hc2))).
   intros [b a3] [Hw3 Hc3]. simpl in *. destruct b as [x|]; [split; assumption|].
   destruct (find_name_match cn COMMANDS); [split; assumption|].
   destruct (leqb cn (str "sudo")); exact I.
 Qed.
 
-Lemma try_from_post : forall c line, nodelim (c :: line) -> c <> 32 -> post (try_from (c :: line)) any.
+Lemma try_from_post : forall c line, nodelim (c :: line) -> c <> 32 -> postx (try_from (c :: line)) any.
 Proof.
   intros c line Hn Hc. unfold try_from.
-  apply (post_bind _ _ _ _ (get_command_name_post c line Hn Hc)).
-  intros [name a] [Hw H0]. simpl in *. apply post_map_err. apply parse_arguments_post; assumption.
+  apply (postx_bind _ _ _ _ (get_command_name_post c line Hn Hc)).
+  intros [name a] [Hw H0]. simpl in *. apply postx_map_err. apply post_postx. apply parse_arguments_post; assumption.
 Qed.
 
 (** ** Trimming *)
@@ -2493,3 +2507,101 @@ Proof.
       * intros (x & Hx & ->). constructor. exact Hx.
     + intros w w' ws cmd Hx. inversion Hx.
 Qed.
+
+(** ** The line theorem *)
+
+Lemma get_rest_stream : forall a r, Stream a r ->
+  exists a', @get_rest aerr a = Ok (trim r, a') /\ expect_end a' 0 0 = Ok (tt, a').
+Proof.
+  intros a r [Hn (p & Hb & Hc)]. unfold get_rest. rewrite Hc.
+  replace (drop_bytes (buffer a) (bytes p)) with (Some r) by (rewrite Hb; symmetry; apply drop_bytes_app).
+  eexists. split; [reflexivity|].
+  set (a' := mkArgs (buffer a) (bytes (buffer a)) (arg_count a)).
+  destruct (next_token_str_spec aerr a' (buffer a) [] Hn) as (t & a'' & E & _ & _ & _ & _ & Hnone).
+  { simpl. rewrite app_nil_r. reflexivity. } { reflexivity. }
+  destruct (Hnone eq_refl) as [-> ->]. unfold expect_end, next_argument_str. rewrite E. reflexivity.
+Qed.
+
+Lemma lookup_step_range : forall s c, lookup s step_table = Some c -> c = StepInto \/ c = StepOut.
+Proof.
+  intros s c. unfold step_table. simpl.
+  repeat match goal with |- context [if ?b then _ else _] => destruct b end;
+    intros H; inversion H; auto.
+Qed.
+
+Lemma lookup_break_range : forall s c, lookup s break_table = Some c ->
+  c = BreakList \/ c = BreakAdd \/ c = BreakRemove.
+Proof.
+  intros s c. unfold break_table. simpl.
+  repeat match goal with |- context [if ?b then _ else _] => destruct b end;
+    intros H; inversion H; auto.
+Qed.
+
+Lemma NameSyn_text_command : forall ws c n, NameSyn ws c n -> c = Eval \/ c = Echo -> n = 1%nat.
+Proof.
+  intros ws c n H Hc. inversion H; subst; try reflexivity.
+  - apply lookup_step_range in H1. destruct Hc as [-> | ->]; destruct H1; discriminate.
+  - apply lookup_break_range in H2. destruct Hc as [-> | ->]; destruct H2 as [?|[?|?]]; discriminate.
+Qed.
+
+(** A line is accepted exactly when the documented grammar gives it a meaning, and then with that
+    meaning. *)
+Theorem try_from_iff : forall line cmd, nodelim line ->
+  (try_from line = Ok cmd <-> LineSyn line cmd).
+Proof.
+  intros line cmd Hn. unfold try_from.
+  pose proof (get_command_name_spec line Hn) as Hg.
+  destruct (get_command_name (arguments_from line)) as [[c a']|e|p|q]; simpl bind; cbv iota beta.
+  2,3,4: (split; [discriminate|]; intros H; inversion H; subst;
+          match goal with Hx : NameSyn _ _ _ |- _ => exfalso; exact (Hg _ _ Hx) end).
+  destruct Hg as (n & r' & Hname & Hs & H0 & Hw & Hr).
+  assert (Htext : forall c0 n0, NameSyn (words line) c0 n0 -> c0 = c /\ n0 = n).
+  { intros c0 n0 Hx. exact (NameSyn_functional _ _ _ _ _ Hx Hname). }
+  destruct (cname_eqb c Eval) eqn:EE; [|destruct (cname_eqb c Echo) eqn:EC].
+  - (* eval *)
+    assert (c = Eval) by (destruct c; try discriminate; reflexivity). subst c.
+    assert (n = 1%nat) by (eapply NameSyn_text_command; eauto). subst n. rewrite (Hr eq_refl) in Hs.
+    destruct (get_rest_stream a' _ Hs) as (a'' & Eg & Ee). simpl parse_arguments. rewrite Eg. simpl bind. cbv iota beta.
+    change (trim (after_word line)) with (after_words 1 line).
+    split.
+    + intros H. destruct (after_words 1 line) as [|x t] eqn:Et; [discriminate|]. rewrite Ee in H.
+      simpl in H. inversion H; subst. rewrite <- Et. apply Line_eval; [exact Hname|]. rewrite Et. discriminate.
+    + intros H. inversion H as [l c0 n0 cmd0 Hn0 HnE HnC Ha|l Hn0 Hne|l Hn0 Hne]; subst.
+      * destruct (Htext _ _ Hn0) as [-> _]. congruence.
+      * destruct (after_words 1 line) as [|x t] eqn:Et; [congruence|]. rewrite Ee. reflexivity.
+      * destruct (Htext _ _ Hn0) as [Hx _]. discriminate.
+  - (* echo *)
+    assert (c = Echo) by (destruct c; try discriminate; reflexivity). subst c.
+    assert (n = 1%nat) by (eapply NameSyn_text_command; eauto). subst n. rewrite (Hr eq_refl) in Hs.
+    destruct (get_rest_stream a' _ Hs) as (a'' & Eg & Ee). simpl parse_arguments. rewrite Eg. simpl bind. cbv iota beta.
+    change (trim (after_word line)) with (after_words 1 line).
+    split.
+    + intros H. destruct (after_words 1 line) as [|x t] eqn:Et; [discriminate|]. rewrite Ee in H.
+      simpl in H. inversion H; subst. rewrite <- Et. apply Line_echo; [exact Hname|]. rewrite Et. discriminate.
+    + intros H. inversion H as [l c0 n0 cmd0 Hn0 HnE HnC Ha|l Hn0 Hne|l Hn0 Hne]; subst.
+      * destruct (Htext _ _ Hn0) as [-> _]. congruence.
+      * destruct (Htext _ _ Hn0) as [Hx _]. discriminate.
+      * destruct (after_words 1 line) as [|x t] eqn:Et; [congruence|]. rewrite Ee. reflexivity.
+  - (* every other command *)
+    assert (HnE : c <> Eval) by (intros ->; discriminate).
+    assert (HnC : c <> Echo) by (intros ->; discriminate).
+    pose proof (parse_arguments_spec c a' r' Hs H0 HnE HnC) as Hd. rewrite Hw in Hd.
+    split.
+    + intros H. destruct (parse_arguments c a') as [cmd'|e|p|q]; simpl in H; try discriminate.
+      inversion H; subst. simpl in Hd. eapply Line_args; eauto.
+    + intros H. inversion H as [l c0 n0 cmd0 Hn0 HnE0 HnC0 Ha|l Hn0 Hne|l Hn0 Hne]; subst.
+      * destruct (Htext _ _ Hn0) as [-> ->].
+        destruct (parse_arguments c a') as [cmd'|e|p|q]; simpl in Hd; try (exfalso; exact (Hd _ Ha)).
+        simpl. f_equal. eapply ArgsSyn_functional; eauto.
+      * destruct (Htext _ _ Hn0) as [Hx _]. congruence.
+      * destruct (Htext _ _ Hn0) as [Hx _]. congruence.
+Qed.
+
+(** Exactly one command per line. *)
+Theorem LineSyn_unambiguous : forall line cmd cmd', nodelim line ->
+  LineSyn line cmd -> LineSyn line cmd' -> cmd = cmd'.
+Proof.
+  intros line cmd cmd' Hn H H'. apply (try_from_iff line cmd Hn) in H. apply (try_from_iff line cmd' Hn) in H'.
+  congruence.
+Qed.
+
